@@ -24,7 +24,9 @@ def run(tier, seed):
     behaviours = []
     if tier == "quick":
         plans = [({"CfgIds": '{"c1", "c2", "c3"}', "SigSets": "<- FewSigSets", "MaxRootV": 2, "Cons": "FALSE"}, "a"),
-                 ({"CfgIds": '{"c1", "c4"}', "SigSets": "<- AllSigSets", "MaxRootV": 2, "Cons": "TRUE"}, "b")]
+                 ({"CfgIds": '{"c1", "c4"}', "SigSets": "<- AllSigSets", "MaxRootV": 2, "Cons": "TRUE"}, "b"),
+                 # two hops: the root keys change at the first one, the second is judged under the new ones
+                 ({"CfgIds": '{"c1", "c2"}', "SigSets": "<- FewSigSets", "MaxRootV": 3, "Cons": "FALSE"}, "c")]
     else:
         plans = [({"CfgIds": '{"c1", "c2", "c3"}', "SigSets": "<- FewSigSets", "MaxRootV": 3, "Cons": "FALSE"}, "a"),
                  ({"CfgIds": '{"c1", "c2", "c3", "c4"}', "SigSets": "<- AllSigSets", "MaxRootV": 2, "Cons": "TRUE"}, "b")]
